@@ -46,6 +46,9 @@ type Vector struct {
 	} `json:"polls"`
 	Same string         `json:"same"`
 	W    int            `json:"W"` // confirmation window in milliseconds (set by the runner)
+	// Prior sends made through the SAME wallet value before the recorded one (set by the runner). The statement gives a
+	// send no memory: seqno and init follow from the chain state of THIS send, so the recorded run is judged like any other.
+	Prior int `json:"prior"`
 	Exp  map[string]any `json:"exp"`
 }
 
@@ -59,11 +62,15 @@ type chain struct {
 	sent  bool
 	npoll int
 	steps []ev.M
+	quiet bool // earlier sends on the same wallet value: answered, not recorded
 }
 
 var errScripted = errors.New("scripted chain: error")
 
 func (c *chain) add(m ev.M) {
+	if c.quiet {
+		return
+	}
 	c.steps = append(c.steps, m)
 }
 
@@ -87,7 +94,7 @@ func (c *chain) SendMessage(ctx context.Context, payload []byte) (uint32, error)
 		r = "ok"
 	}
 	c.add(ev.M{"k": "Send", "boc": hex.EncodeToString(payload), "r": r})
-	if r == "err" {
+	if r == "err" && !c.quiet {
 		return 0, errScripted
 	}
 	return 0, nil
@@ -168,7 +175,7 @@ func account(v *Vector, ver wallet.Version, addr ton.AccountID) (tlb.ShardAccoun
 func runVector(v *Vector) ev.M {
 	out := ev.M{"k": "Run", "vec": v.Vec, "ver": v.Ver, "entry": v.Entry, "confirm": v.Confirm, "wc": v.Wc, "seed": v.Seed,
 		"rawseq": v.RawSeq, "rawinit": v.RawInit, "st": v.Acct.St, "n": v.Acct.N, "ext": v.Acct.Ext, "W": v.W, "exp": v.Exp,
-		"addr": "", "awc": 0, "setup": ""}
+		"addr": "", "awc": 0, "setup": "", "prior": v.Prior}
 	ver, ok := verByName(v.Ver)
 	if !ok {
 		out["setup"] = "unknown version"
@@ -201,6 +208,31 @@ func runVector(v *Vector) ev.M {
 		dest.Address[i] = byte(0x50 + i)
 	}
 	transfer := wallet.SimpleTransfer{Amount: 10000, Address: dest, Comment: "c15"}
+	if v.Prior > 0 {
+		// earlier sends through the same wallet value, accepted by the chain, never confirmed: by the state entry point,
+		// and with caller-supplied seqnos that have nothing to do with the account's
+		ch.quiet = true
+		pan := guard(func() {
+			ctx := context.Background()
+			for j := 0; j < v.Prior; j++ {
+				if j%2 == 0 {
+					_ = wl.Send(ctx, transfer)
+				} else if im, mode, err := transfer.ToInternal(); err == nil {
+					mc := boc.NewCell()
+					if tlb.Marshal(mc, im) == nil {
+						_ = wl.RawSend(ctx, uint32(1000+j), time.Now().Add(time.Minute), []wallet.RawMessage{{Message: mc, Mode: mode}}, nil)
+					}
+				}
+			}
+		})
+		ch.mu.Lock()
+		ch.quiet, ch.sent, ch.npoll, ch.steps = false, false, 0, nil
+		ch.mu.Unlock()
+		if pan != "" {
+			out["steps"] = []ev.M{{"k": "Panic", "at": "earlier-send", "panic": pan}}
+			return out
+		}
+	}
 	type result struct {
 		err error
 		pan string
